@@ -472,11 +472,11 @@ end Idx
 section Examples
 open Rosu.Toy
 
-@[instance_reducible] def posDecEqInt : DecidableEq (Pos Int) := fun a b =>
+@[instance_reducible] def refPosDecEqInt : DecidableEq (Pos Int) := fun a b =>
   decidable_of_iff (a.x = b.x ∧ a.y = b.y) (by cases a; cases b; simp only [Pos.mk.injEq])
-attribute [local instance] posDecEqInt
+attribute [local instance] refPosDecEqInt
 
-def L : Option PathType := some PathType.linear
+def tyL : Option PathType := some PathType.linear
 
 theorem allLinear_of_forall {P : Type} [Scalar P] [Trig P] (pts : List (PathControlPoint P))
     (h : ∀ cp ∈ pts, cp.pathType = none ∨ cp.pathType = some PathType.linear) : AllLinear pts := by
@@ -486,68 +486,68 @@ theorem allLinear_of_forall {P : Type} [Scalar P] [Trig P] (pts : List (PathCont
   · rw [h] at ht; cases ht; rfl
 
 /-- `L (0,0), (100,0) L` → 2 vertices (the type on the last point adds nothing). -/
-example : refLinearNatural [cp 0 0 L, cp 100 0 L] = [pt 0 0, pt 100 0] := by decide
+example : refLinearNatural [cp 0 0 tyL, cp 100 0 tyL] = [pt 0 0, pt 100 0] := by decide
 /-- `(0,0) L, (50,0), (50,0) L, (50,80)`: the joint `(50,0)` (control point 2) appears once, not twice — the path is the
 four control-point positions (control point 1 has the same position and is kept). -/
-example : refLinearNatural [cp 0 0 L, cp 50 0, cp 50 0 L, cp 50 80] = [pt 0 0, pt 50 0, pt 50 0, pt 50 80] := by decide
+example : refLinearNatural [cp 0 0 tyL, cp 50 0, cp 50 0 tyL, cp 50 80] = [pt 0 0, pt 50 0, pt 50 0, pt 50 80] := by decide
 /-- first point typed → it is not duplicated. -/
-example : refLinearNatural [cp 0 0 L, cp 100 0] = [pt 0 0, pt 100 0] := by decide
+example : refLinearNatural [cp 0 0 tyL, cp 100 0] = [pt 0 0, pt 100 0] := by decide
 /-- first point untyped. -/
-example : refLinearNatural [cp 0 0, cp 100 0, cp 100 50 L, cp 0 50] = [pt 0 0, pt 100 0, pt 100 50, pt 0 50] := by decide
+example : refLinearNatural [cp 0 0, cp 100 0, cp 100 50 tyL, cp 0 50] = [pt 0 0, pt 100 0, pt 100 50, pt 0 50] := by decide
 example : refLinearNatural ([] : List (PathControlPoint Int)) = [] := by decide
-example : refLinearNatural [cp 7 8 L] = [pt 7 8] := by decide
+example : refLinearNatural [cp 7 8 tyL] = [pt 7 8] := by decide
 
 /-- the model on the same inputs (osu! mode, fuel 10, fresh buffers): same paths. -/
-example : ((calculatePath (F := Int) 10 GameMode.osu [cp 0 0 L, cp 100 0 L] {}).toOption.map (·.1.path)) =
+example : ((calculatePath (F := Int) 10 GameMode.osu [cp 0 0 tyL, cp 100 0 tyL] {}).toOption.map (·.1.path)) =
     some [pt 0 0, pt 100 0] := by decide
-example : ((calculatePath (F := Int) 10 GameMode.osu [cp 0 0 L, cp 50 0, cp 50 0 L, cp 50 80] {}).toOption.map
+example : ((calculatePath (F := Int) 10 GameMode.osu [cp 0 0 tyL, cp 50 0, cp 50 0 tyL, cp 50 80] {}).toOption.map
     (·.1.path)) = some [pt 0 0, pt 50 0, pt 50 0, pt 50 80] := by decide
-example : ((calculatePath (F := Int) 10 GameMode.osu [cp 0 0 L, cp 100 0] {}).toOption.map (·.1.path)) =
+example : ((calculatePath (F := Int) 10 GameMode.osu [cp 0 0 tyL, cp 100 0] {}).toOption.map (·.1.path)) =
     some [pt 0 0, pt 100 0] := by decide
 
 /-- non-vacuity of `calculatePath_linear_eq_ref` / `calculatePath_linear_positions`: the hypotheses hold on
 `(0,0) L, (50,0), (50,0) L, (50,80)`, and the call succeeds. -/
-example : ∃ b opt, calculatePath (F := Int) 10 GameMode.osu [cp 0 0 L, cp 50 0, cp 50 0 L, cp 50 80] {} = .ok (b, opt) ∧
-    AllLinear [cp 0 0 L, cp 50 0, cp 50 0 L, cp 50 80] ∧
-    (∀ c ∈ [cp 0 0 L, cp 50 0, cp 50 0 L, cp 50 80].dropLast, c.pathType ≠ none → Pos.eq c.pos c.pos = true) ∧
+example : ∃ b opt, calculatePath (F := Int) 10 GameMode.osu [cp 0 0 tyL, cp 50 0, cp 50 0 tyL, cp 50 80] {} = .ok (b, opt) ∧
+    AllLinear [cp 0 0 tyL, cp 50 0, cp 50 0 tyL, cp 50 80] ∧
+    (∀ c ∈ [cp 0 0 tyL, cp 50 0, cp 50 0 tyL, cp 50 80].dropLast, c.pathType ≠ none → Pos.eq c.pos c.pos = true) ∧
     b.path = [pt 0 0, pt 50 0, pt 50 0, pt 50 80] := by
-  have hl : AllLinear [cp 0 0 L, cp 50 0, cp 50 0 L, cp 50 80] :=
+  have hl : AllLinear [cp 0 0 tyL, cp 50 0, cp 50 0 tyL, cp 50 80] :=
     allLinear_of_forall _ (by decide)
-  cases h : calculatePath (F := Int) 10 GameMode.osu [cp 0 0 L, cp 50 0, cp 50 0 L, cp 50 80] {} with
+  cases h : calculatePath (F := Int) 10 GameMode.osu [cp 0 0 tyL, cp 50 0, cp 50 0 tyL, cp 50 80] {} with
   | error e =>
-    have : (calculatePath (F := Int) 10 GameMode.osu [cp 0 0 L, cp 50 0, cp 50 0 L, cp 50 80] {}).toOption.isSome = true := by
+    have : (calculatePath (F := Int) 10 GameMode.osu [cp 0 0 tyL, cp 50 0, cp 50 0 tyL, cp 50 80] {}).toOption.isSome = true := by
       decide
     rw [h] at this; cases this
   | ok r =>
     obtain ⟨b, opt⟩ := r
-    have hrefl : ∀ c ∈ [cp 0 0 L, cp 50 0, cp 50 0 L, cp 50 80].dropLast, c.pathType ≠ none →
+    have hrefl : ∀ c ∈ [cp 0 0 tyL, cp 50 0, cp 50 0 tyL, cp 50 80].dropLast, c.pathType ≠ none →
         Pos.eq c.pos c.pos = true := by decide
     exact ⟨b, opt, rfl, hl, hrefl, (calculatePath_linear_positions 10 GameMode.osu _ {} b opt hl hrefl h).1⟩
 
 /-! ### `ref_length_le` is FALSE without the no-NaN hypothesis -/
 
-def zpt (x : ZN) (y : ZN) : Pos ZN := ⟨x, y⟩
+def refZpt (x : ZN) (y : ZN) : Pos ZN := ⟨x, y⟩
 
 /-- a typed first point with a NaN coordinate is emitted twice: 2 control points, 3 path vertices. -/
-example : (refLinearNatural [⟨zpt ZN.nan (ZN.num 0), L⟩, ⟨zpt (ZN.num 1) (ZN.num 0), none⟩]).length = 3 := by decide
+example : (refLinearNatural [⟨refZpt ZN.nan (ZN.num 0), tyL⟩, ⟨refZpt (ZN.num 1) (ZN.num 0), none⟩]).length = 3 := by decide
 /-- a typed interior joint with a NaN coordinate is emitted twice: 3 control points, 4 path vertices. -/
-example : (refLinearNatural [⟨zpt (ZN.num 0) (ZN.num 0), none⟩, ⟨zpt ZN.nan (ZN.num 0), L⟩,
-    ⟨zpt (ZN.num 1) (ZN.num 0), none⟩]).length = 4 := by decide
+example : (refLinearNatural [⟨refZpt (ZN.num 0) (ZN.num 0), none⟩, ⟨refZpt ZN.nan (ZN.num 0), tyL⟩,
+    ⟨refZpt (ZN.num 1) (ZN.num 0), none⟩]).length = 4 := by decide
 
 /-- so the bound `|path| ≤ |points|` does not hold for every equality: -/
 theorem ref_length_le_false : ¬ ∀ (pts : List (PathControlPoint ZN)), (refLinearNatural pts).length ≤ pts.length := by
   intro h
-  exact absurd (h [⟨zpt ZN.nan (ZN.num 0), L⟩, ⟨zpt (ZN.num 1) (ZN.num 0), none⟩]) (by decide)
+  exact absurd (h [⟨refZpt ZN.nan (ZN.num 0), tyL⟩, ⟨refZpt (ZN.num 1) (ZN.num 0), none⟩]) (by decide)
 
 attribute [local instance] C16.trigStub32
 
-def nan32 : Float32 := Float32.ofBits 0x7fc00000
+def refNan32 : Float32 := Float32.ofBits 0x7fc00000
 
 /-- the same on the driver's `Float32`/`Float` instance, on the MODEL: `calculate_path` on `(NaN,0) L, (1,0)` returns a
 path of 3 vertices for 2 control points. -/
 theorem calculatePath_nan_joint_float32 :
     ((calculatePath (F := Float) 10 GameMode.osu
-      [(⟨⟨nan32, 0⟩, L⟩ : PathControlPoint Float32), ⟨⟨1, 0⟩, none⟩] {}).toOption.map (·.1.path.length)) = some 3 := by
+      [(⟨⟨refNan32, 0⟩, tyL⟩ : PathControlPoint Float32), ⟨⟨1, 0⟩, none⟩] {}).toOption.map (·.1.path.length)) = some 3 := by
   decide +kernel
 
 end Examples
